@@ -1,4 +1,4 @@
-import RaftProofs.ProtoLStep
+import RaftProofs.ProtoC
 
 /-!
 # C15 — snapshot install and log compaction preserve state and safety
@@ -104,9 +104,26 @@ theorem C15_snapshot_entries_bounded (c0 : Cfg) (hne : c0.incoming ≠ [] ∨ c0
   have hp : PFL s.llog m.pre := I.pfl _ (listsOf_snap s m hm)
   exact ⟨pfl_term_pos I hp he, I.stle m hm e he⟩
 
-/-- the full statement about application state and configuration (needs state-machine safety, C01) -/
+/-- **A released snapshot is the committed log**: every node that has committed as far as the
+snapshot index holds exactly the snapshot's prefix — so installing it gives a node the log (hence,
+for a deterministic application, the state and the configuration) it would have reached by
+replication -/
+theorem C15_snapshot_is_committed_prefix (c0 : Cfg) (hne : c0.incoming ≠ [] ∨ c0.outgoing ≠ []) (s : PSys)
+    (hr : ReachC c0 s) (m : Snap) (hm : m ∈ s.snaps) (i : Nat) (hi : m.idx ≤ (s.nodes i).commit) :
+    (s.nodes i).log.take m.idx = m.pre := by
+  have I := invAll_reach c0 hne s hr
+  exact snapshot_committed I.b I.c m hm i hi
+
+/-- every entry inside a released snapshot is a committed entry (C01's committed log) -/
+theorem C15_snapshot_entries_committed (c0 : Cfg) (hne : c0.incoming ≠ [] ∨ c0.outgoing ≠ []) (s : PSys)
+    (hr : ReachC c0 s) (m : Snap) (hm : m ∈ s.snaps) (k : Nat) (hk : 0 < k) (hi : k ≤ m.idx) :
+    ∃ e, m.pre[k - 1]? = some e ∧ Committed s k e := by
+  have I := invAll_reach c0 hne s hr
+  exact snapshot_is_committed I.b I.c m hm k hk hi
+
+/-- the statement with the voter configuration changing along the history — not proved -/
 def C15_full_statement : Prop :=
-  ∀ (c0 : Cfg) (s : PSys), ReachC c0 s → ∀ m ∈ s.snaps, ∀ i,
+  ∀ (s : PSys), Reach s → ∀ m ∈ s.snaps, ∀ i,
     m.idx ≤ (s.nodes i).commit → (s.nodes i).log.take m.idx = m.pre
 
 /-! ### non-vacuity: a lagging follower installs a snapshot of the leader's committed prefix -/
